@@ -1,5 +1,6 @@
 import DiscretModel.Lemmas.QueryOrder
 import DiscretModel.Lemmas.SqlCompile
+import DiscretModel.Lemmas.SqlCompileSub
 /-
 C05 — Query results equal a direct evaluation of the query over the data.
 
@@ -321,5 +322,72 @@ example :
     renderLimit (compile nmEx schemaEx (fun _ => "p0") queryEx).limit (compile nmEx schemaEx (fun _ => "p0") queryEx).offset =
       "LIMIT 2" := by
   refine ⟨?_, ?_, ?_⟩ <;> decide
+
+/-! ### one level of sub-selections through reference fields -/
+
+/-- **C05 (compiler, one level of sub-selections).** `Model/SqlGenSub.lean` extends the model of the SQL generator to
+    selections whose fields include sub-selections through entity and array reference fields
+    (`get_sub_entity_query`, `get_sub_group_array`, `get_exists_query`), each sub-selection being a query of the
+    single-entity fragment with its own filters, `order_by`, `first` / `skip`, cursors; `nullable(key)` and nullable
+    reference fields make a sub-selection optional. `Model/SqlSemSub.lean` adds the `_edge` join, scalar
+    sub-queries, `json_group_array` and `EXISTS` to the trusted SQL semantics.
+
+    For every data model, every data set whose ids are keys (`dataOk`), every such query (`inFragment1`; the keys of
+    the sub-selections differ from the alias of the root selection, which excludes the known shadowing defect),
+    injective short names and parameters as the query was evaluated with: running the generated statement on the
+    `_node` and `_edge` tables that store the data set returns exactly the list of JSON objects the reference
+    evaluator computes for the code as it is, nested arrays and objects included, in the same order. -/
+theorem C05_compile_correct_sub (nm : Names) (s : Schema) (data : Data) (q : Query) (vn0 : Nat → String)
+    (vn : Nat → Nat → String) (env : String → Val) (fuel : Nat)
+    (hfrag : inFragment1 s nm.table q = true)
+    (hdata : dataOk data = true)
+    (hent : ∀ a b, nm.entShort a = nm.entShort b → a = b)
+    (hfld : ∀ e a b, nm.fieldShort e a = nm.fieldShort e b → a = b)
+    (henv0 : ∀ i f, q.filters[i]? = some f → f.isParam = true → env (vn0 i) = f.value)
+    (henvS : ∀ k key fld opt sq, q.sels[k]? = some (.sub key fld opt sq) →
+      ∀ i f, sq.filters[i]? = some f → f.isParam = true → env (vn k i) = f.value) :
+    SqlSem.run1 (encodeDb nm data) (compile1 nm s vn0 vn q) env =
+      Query.eval Defects.asImplemented s data (fuel + 4) nm.table q :=
+  compile1_correct nm s data q vn0 vn env fuel hfrag hdata hent hfld henv0 henvS
+
+/-- persons (entity 0: name, pets: [1], home: 2 nullable) and pets (entity 1: name, age default 1), houses (2) -/
+def schemaSub : Schema :=
+  [[{ kind := .str, nullable := false, dflt := none }, { kind := .arr 1, nullable := false, dflt := none },
+    { kind := .ref 2, nullable := true, dflt := none }],
+   [{ kind := .str, nullable := false, dflt := none }, { kind := .int, nullable := false, dflt := some (.int 1) }],
+   [{ kind := .str, nullable := false, dflt := none }]]
+
+/-- `P { name pets(age >= $p0, order_by(age desc), first 2) { name age } home { name } }` -/
+def querySub : Query :=
+  Query.mk 0 [.scalar "name" 0,
+    .sub "pets" 1 false (Query.mk 1 [.scalar "name" 0, .scalar "age" 1]
+      [{ onAlias := false, fld := 1, op := .ge, value := .int 1, isParam := true, name := "age" }]
+      [{ name := "age", onAlias := false, fld := 1, desc := true }] 2 0 [] []),
+    .sub "home" 2 false (Query.mk 2 [.scalar "name" 0] [] [] 0 0 [] [])]
+    [] [] 0 0 [] []
+
+def dataSub : Data :=
+  [{ id := 1, ent := 1, vals := [(0, .str ['r', 'e', 'x']), (1, .int 7)], refs := [] },
+   { id := 2, ent := 1, vals := [(0, .str ['t', 'o', 'm'])], refs := [] },
+   { id := 3, ent := 1, vals := [(0, .str ['z', 'o', 'e']), (1, .int 3)], refs := [] },
+   { id := 4, ent := 2, vals := [(0, .str ['h'])], refs := [] },
+   { id := 5, ent := 0, vals := [(0, .str ['a', 'n', 'n'])], refs := [(1, [1, 2, 3]), (2, [4])] },
+   { id := 6, ent := 0, vals := [(0, .str ['b', 'o', 'b'])], refs := [(1, [2])] },
+   { id := 7, ent := 0, vals := [(0, .str ['c', 'y'])], refs := [] }]
+
+example : inFragment1 schemaSub nmEx.table querySub = true := by decide
+example : dataOk dataSub = true := by decide
+example : ∀ e a b, nmEx.fieldShort e a = nmEx.fieldShort e b → a = b := fun _ a b h => by
+  have := xs_inj _ _ h; omega
+
+/-- ann has three pets of which the two oldest are returned (tom's age is unset: the stored row lacks it, so it sorts
+    last and shows the default), bob's only pet lacks an age and the filter `age >= 1` uses the default; cy has no pet
+    and is dropped by the mandatory sub-selection; bob has no home (nullable field): `null` -/
+example :
+    (SqlSem.run1 (encodeDb nmEx dataSub) (compile1 nmEx schemaSub (fun _ => "x") (fun _ _ => "p0") querySub)
+        (fun _ => .int 1)).map (fun j => String.ofList (jsonChars 20 j)) =
+      ["{\"name\":\"ann\",\"pets\":[{\"name\":\"rex\",\"age\":7},{\"name\":\"zoe\",\"age\":3}],\"home\":{\"name\":\"h\"}}",
+       "{\"name\":\"bob\",\"pets\":[{\"name\":\"tom\",\"age\":1}],\"home\":null}"] := by
+  decide
 
 end Discret.SqlCompile
